@@ -6,7 +6,8 @@ rows = []
 for f in sorted(glob.glob(os.path.join(HERE, "seeded", "*", "meta.json"))):
     d = json.load(open(f)); name = os.path.basename(os.path.dirname(f))
     rows.append((name, d))
-missed = [(n, d) for n, d in rows if d.get("initially_missed") or d.get("initially_missed_by")]
+missed = [(n, d) for n, d in rows if (d.get("initially_missed") or d.get("initially_missed_by")) and not d.get("not_detected")]
+undetected = [(n, d) for n, d in rows if d.get("not_detected")]
 byprop = {}
 for n, d in rows:
     byprop.setdefault(n[:3].upper(), []).append((n, d))
@@ -14,12 +15,15 @@ out = []
 out.append("Seeded by independent sub-agents that saw only the property text and a scratch checkout (`/verif/seeded/<name>/`: `patch.diff`, `demo.cpp`,")
 out.append("`meta.json` with what it needs to manifest, how it was confirmed - suite passes with it, demo fails with / passes without - and which")
 out.append("check reports it). %d changes in total; %d of them were **missed by the first run** of the check that should have reported them, and each miss" % (len(rows), len(missed)))
-out.append("was turned into a strengthening of the machinery (second table); every one of the %d is reported now (re-run with `tools/mut.sh <id> quick patch seeded/<name>/patch.diff`)." % len(rows))
+out.append("was turned into a strengthening of the machinery (second table); %s reported now (re-run with `tools/mut.sh <id> quick patch seeded/<name>/patch.diff`)."
+           % (("every one of the %d is" % len(rows)) if not undetected else ("%d of the %d are" % (len(rows) - len(undetected), len(rows)))))
+if undetected:
+    out.append("**Not reported by any check** (%d): " % len(undetected) + "; ".join("`%s` - %s" % (n, d.get("note", "")) for n, d in undetected))
 out.append("")
-out.append("| property (as given to the sub-agent) | seeded changes (directory names under `seeded/`), all reported |")
+out.append("| property (as given to the sub-agent) | seeded changes (directory names under `seeded/`) |")
 out.append("|---|---|")
 for p in sorted(byprop):
-    names = ", ".join("`%s`%s" % (n[4:], " (*)" if (d.get("initially_missed") or d.get("initially_missed_by")) else "") for n, d in byprop[p])
+    names = ", ".join("`%s`%s" % (n[4:], " (not reported)" if d.get("not_detected") else " (*)" if (d.get("initially_missed") or d.get("initially_missed_by")) else "") for n, d in byprop[p])
     out.append("| %s (%d) | %s |" % (p, len(byprop[p]), names))
 out.append("")
 out.append("(*) missed at first:")
